@@ -110,6 +110,14 @@ public:
     // Calculate TTL from DNS result
     std::uint32_t ttl = calculateResultTtl(result);
 
+    // TTL 0 means "do not cache" (RFC 1035 3.2.1). ExpiringCache::set() treats a
+    // zero custom TTL as "use the default", so handle it here: drop any entry.
+    if (ttl == 0)
+    {
+      cache_->remove(key);
+      return;
+    }
+
     // Store positive result
     CachedDnsResult cachedResult(result);
     cache_->set(key, cachedResult, std::chrono::seconds(ttl));
@@ -150,6 +158,12 @@ public:
     auto existingEntry = cache_->get(key);
     bool hadEntry = existingEntry.has_value();
     bool hadNegativeEntry = hadEntry && existingEntry->isNegative;
+
+    if (negativeTtl == 0)
+    {
+      cache_->remove(key); // TTL 0: do not cache (see put())
+      return;
+    }
 
     // Store negative result
     CachedDnsResult cachedResult(result, errorMessage);
